@@ -346,7 +346,7 @@ def gen_cases(ctx):
     rng = ctx.rng
     quick = ctx.quick()
     cases = [(n, "curated", a) for n, a in CURATED]
-    n_clean, n_coll, n_greedy, n_mal = (55, 25, 32, 8) if quick else (700, 250, 350, 50)
+    n_clean, n_coll, n_greedy, n_mal = (55, 25, 32, 8) if quick else (1400, 500, 700, 100)
     for i in range(n_clean):
         cases.append(("clean%d" % i, "clean", gen_clean(rng)))
     for i in range(n_coll):
